@@ -211,6 +211,11 @@ type a3 struct {
 	// constant number of events per invocation and touches no counter; each
 	// call of the variable then counts as that many events.
 	localEvents map[types.Object]int
+	// delegated callbacks held in a local variable: `var cb func(..); if f !=
+	// nil { cb = func(..) { f(..) } }; return inner.RayCollisions(r, cb)` - a
+	// local assigned exactly one function literal (and otherwise nil) whose only
+	// other uses are as the callback argument of a delegation.
+	boundLits map[types.Object]*ast.FuncLit
 }
 
 func newA3(c *Ctx, info *types.Info, mode a3Mode, rule, fnName string) *a3 {
@@ -251,6 +256,60 @@ func (a *a3) collectAssigned(body ast.Node) {
 		}
 		return true
 	})
+}
+
+// collectBoundLits fills boundLits (see the field).
+func (a *a3) collectBoundLits(body ast.Node) {
+	if a.mode.isDeleg == nil {
+		return
+	}
+	lits := map[types.Object][]*ast.FuncLit{}
+	other := map[types.Object]bool{}
+	okUse := map[*ast.Ident]bool{}
+	ast.Inspect(body, func(n ast.Node) bool {
+		switch x := n.(type) {
+		case *ast.AssignStmt:
+			if len(x.Lhs) == 1 && len(x.Rhs) == 1 {
+				if id, ok := x.Lhs[0].(*ast.Ident); ok {
+					obj := a.info.Defs[id]
+					if obj == nil {
+						obj = a.info.Uses[id]
+					}
+					if obj != nil {
+						okUse[id] = true
+						if lit, ok := ast.Unparen(x.Rhs[0]).(*ast.FuncLit); ok {
+							lits[obj] = append(lits[obj], lit)
+						} else if !isNilIdent(a.info, x.Rhs[0]) {
+							other[obj] = true
+						}
+					}
+				}
+			}
+		case *ast.CallExpr:
+			if idx, ok := a.mode.isDeleg(x); ok && idx < len(x.Args) {
+				if id, ok := ast.Unparen(x.Args[idx]).(*ast.Ident); ok {
+					okUse[id] = true
+				}
+			}
+		}
+		return true
+	})
+	ast.Inspect(body, func(n ast.Node) bool {
+		if id, ok := n.(*ast.Ident); ok && !okUse[id] {
+			if obj := a.info.Uses[id]; obj != nil {
+				other[obj] = true
+			}
+		}
+		return true
+	})
+	for obj, ls := range lits {
+		if len(ls) == 1 && !other[obj] {
+			if a.boundLits == nil {
+				a.boundLits = map[types.Object]*ast.FuncLit{}
+			}
+			a.boundLits[obj] = ls[0]
+		}
+	}
 }
 
 func (a *a3) unsupportedf(p token.Pos, format string, args ...interface{}) {
@@ -586,6 +645,8 @@ func (a *a3) delegation(st *a3State, call *ast.CallExpr, cbIdx int) {
 	case *ast.Ident:
 		if a.isCallbackIdent(g) {
 			equiv = true
+		} else if lit := a.boundLits[a.info.Uses[g]]; lit != nil {
+			equiv = a.funcLit(st, lit, true)
 		}
 	case *ast.FuncLit:
 		equiv = a.funcLit(st, g, true)
@@ -846,6 +907,17 @@ func (a *a3) stmt(s ast.Stmt, st a3State) a3State {
 			}
 		}
 	case *ast.AssignStmt:
+		if len(x.Lhs) == 1 && len(x.Rhs) == 1 {
+			if id, ok := x.Lhs[0].(*ast.Ident); ok {
+				obj := a.info.Defs[id]
+				if obj == nil {
+					obj = a.info.Uses[id]
+				}
+				if lit, isLit := ast.Unparen(x.Rhs[0]).(*ast.FuncLit); isLit && obj != nil && a.boundLits[obj] == lit {
+					return st // analysed where it is handed to the delegate
+				}
+			}
+		}
 		if x.Tok == token.DEFINE && len(x.Lhs) == 1 && len(x.Rhs) == 1 {
 			if lit, ok := x.Rhs[0].(*ast.FuncLit); ok {
 				if id, ok := x.Lhs[0].(*ast.Ident); ok {
